@@ -351,6 +351,12 @@ def r05_6_shared(repo: Repo, rep: Report):
     rep.rule("R16.2", "cache hit needs all ids of a core (shared with C16)")
     r16_1_core_recording(repo, rep)
     r16_2_subset_test(repo, rep)
+    # what a (crashed, truncated, timed out) solver reply is turned into feeds the verdict: the core reader must not
+    # accept a partial reply
+    from hsa.rules.c11 import r11_3_dump_writer_reader
+
+    rep.rule("R11.3", "solver reply readers: complete `unsat (...)` only (shared with C11)")
+    r11_3_dump_writer_reader(repo, rep)
 
 
 RULES = [r05_1_pass_dominance, r05_2_precedence, r05_3_failure_mapping, r05_4_order_independence, r05_5_exit_code, r05_6_shared]
